@@ -126,6 +126,40 @@ def main():
     rej, ok = lvalidate(S["logs"], "norel.ndjson", drop=idx)
     results.append(("LocksTrace.tla rejects the log with one release removed (mutual exclusion)", idx is not None and rej))
 
+    # 4b. a stale view after a completed registration, and a lost registration, must be rejected
+    def lvalidate_raw(lines, name):
+        f = os.path.join(d4, name)
+        with open(f, "w") as h:
+            for x in lines:
+                h.write(json.dumps(x) + "\n")
+        env = dict(os.environ, TRACE=f, JAVA_TOOL_OPTIONS="-Xss1g -Dtlc2.tool.queue.IStateQueue=StateDeque")
+        o = tlc(SPEC, "LocksTrace.cfg", "LocksTrace.tla", env, workers=1)
+        return "LOCKTRACE-REJECTED" in o, "No error has been found" in o
+    base = [{"t": 0, "s": 0, "k": "reset", "l": "FC"}, {"t": 1, "s": 1, "k": "begin", "l": "register_tags"},
+            {"t": 1, "s": 2, "k": "reg_done", "l": "FC"}, {"t": 1, "s": 3, "k": "end_any", "l": "register_tags"},
+            {"t": 2, "s": 1, "k": "begin", "l": "format"}]
+    rej, ok = lvalidate_raw(base + [{"t": 2, "s": 2, "k": "end_post", "l": "format"}, {"t": 1, "s": 4, "k": "tags_kept", "l": "FC"}], "vis_good.ndjson")
+    results.append(("LocksTrace.tla accepts a call that begins after a registration and shows the registered names", ok and not rej))
+    rej, ok = lvalidate_raw(base + [{"t": 2, "s": 2, "k": "end_pre", "l": "format"}], "vis_stale.ndjson")
+    results.append(("LocksTrace.tla rejects a call that begins after a completed registration and returns the unregistered text", rej))
+    rej, ok = lvalidate_raw(base + [{"t": 2, "s": 2, "k": "end_post", "l": "format"}, {"t": 1, "s": 4, "k": "tags_lost", "l": "FC"}], "lost.ndjson")
+    results.append(("LocksTrace.tla rejects a run in which a registered tag was lost", rej))
+
+    # 5. the registry replayer must report a behaviour of Registry.tla with one projected answer altered
+    d5 = os.path.join(OUT, "registry")
+    os.makedirs(d5)
+    o = tlc(SPEC, "Registry.cfg", "Registry.tla", dict(os.environ), workers=2)
+    lines = [l for l in o.splitlines() if l.startswith('<<"BEH"')][:200]
+    def regrun(ls, name):
+        rep = os.path.join(d5, name)
+        p = subprocess.run([os.path.join(BIN, "regreplay"), "--report", rep], input="\n".join(ls) + "\n", stdout=subprocess.PIPE, stderr=subprocess.STDOUT, text=True)
+        return json.load(open(rep))
+    r_good = regrun(lines, "good.json")
+    results.append(("registry replayer accepts behaviours printed by TLC for Registry.tla", r_good["behaviours"] == len(lines) and not r_good["failure_counts"]))
+    bad = [l.replace('\\"kv_name\\":[\\"a\\"', '\\"kv_name\\":[\\"zz\\"', 1) for l in lines]
+    r_bad = regrun(bad, "bad.json")
+    results.append(("registry replayer reports a behaviour with one projected name altered", bad != lines and bool(r_bad["failure_counts"])))
+
     allok = True
     for name, okv in results:
         print("%s  %s" % ("PASS" if okv else "FAIL", name))
